@@ -17,6 +17,8 @@ pub enum Step {
     /// modification time back (`cp -p`, `rsync -t`, an edit within the clock's granularity)
     WriteSameStamp(String, Vec<u8>),
     Mkdir(String),
+    /// a symbolic link `link -> target` (target relative to the link's directory, as `ln -s` takes it)
+    Symlink(String, String),
     Remove(String),
     OutWrite(String, Vec<u8>),
     OutRemove(String),
@@ -419,6 +421,13 @@ pub fn apply(root: &Path, outdir: &Path, s: &Step) {
         Step::Mkdir(rel) => {
             let _ = std::fs::create_dir_all(indir.join(rel));
         }
+        Step::Symlink(link, target) => {
+            let p = indir.join(link);
+            if let Some(d) = p.parent() {
+                let _ = std::fs::create_dir_all(d);
+            }
+            let _ = std::os::unix::fs::symlink(target, p);
+        }
         Step::Remove(rel) => {
             let p = indir.join(rel);
             if p.is_dir() {
@@ -518,6 +527,7 @@ fn dedup_steps(steps: Vec<Step>) -> Vec<Step> {
         let key = match &s {
             Step::Write(p, _) | Step::WriteOld(p, _) => p.clone(),
             Step::Mkdir(p) => format!("{p}/"),
+            Step::Symlink(p, _) => format!("{p}@"),
             _ => String::new(),
         };
         if key.is_empty() || seen.insert(key) {
@@ -677,6 +687,23 @@ fn statics_scenario(r: &mut Rng, twin: usize) -> Scenario {
     if r.chance(1, 3) {
         steps.push(Step::Write("templates/page.rs.html".into(), GOOD_TEMPLATES[1].as_bytes().to_vec()));
         script.push(SOp::T("templates".into()));
+    }
+    if r.chance(1, 4) {
+        // paths as people write them: `./x`, `dir/../x`, and a `..` that crosses a symbolic link — the file the
+        // operating system resolves (realdeep/odd.css) is not the one at the lexically tidied path (odd.css)
+        let n = *r.pick(&["odd.css", "odd.js", "o-d.d.txt"]);
+        steps.push(Step::Mkdir("realdeep/inner".into()));
+        steps.push(Step::Write(format!("realdeep/{n}"), rand_content(r)));
+        steps.push(Step::Write(n.to_string(), b"decoy at the lexical location".to_vec()));
+        steps.push(Step::Symlink("lnk".into(), "realdeep/inner".into()));
+        steps.push(Step::Write(format!("single/dotted/{n}"), rand_content(r)));
+        steps.push(Step::Mkdir("single/dotted/sub".into()));
+        match r.below(4) {
+            0 => script.push(SOp::F(format!("lnk/../{n}"))),
+            1 => script.push(SOp::A(format!("lnk/../{n}"), format!("to/{n}"))),
+            2 => script.push(SOp::F(format!("single/./dotted/sub/../{n}"))),
+            _ => script.push(SOp::A(format!("./single/dotted/./{n}"), format!("dots/{n}"))),
+        }
     }
     // shuffle the script order
     for i in (1..script.len()).rev() {
